@@ -462,7 +462,24 @@ func parent(prop, level string, scenarios []Scenario, describe func(r *mc.Run)) 
 	if describe != nil {
 		describe(r)
 	}
-	freeOutcomes := supplementary(r, prop)
+	// the supplementary free-running -race pass runs alongside the exploration (bin/check-sched starts
+	// it in the background); its result is folded in when first needed, at the latest before Finish
+	var freeOnce sync.Once
+	var freeOutcomes map[string]map[string]int
+	getFree := func() {
+		freeOnce.Do(func() {
+			if done := os.Getenv("VERIF_FREE_DONE"); done != "" {
+				deadline := time.Now().Add(20 * time.Minute)
+				for time.Now().Before(deadline) {
+					if _, err := os.Stat(done); err == nil {
+						break
+					}
+					time.Sleep(200 * time.Millisecond)
+				}
+			}
+			freeOutcomes = supplementary(r, prop)
+		})
+	}
 	self, _ := os.Executable()
 	type agg struct {
 		execs    int
@@ -612,6 +629,7 @@ func parent(prop, level string, scenarios []Scenario, describe func(r *mc.Run)) 
 				for k, v := range counters {
 					r.Count(s.Name+":"+k, int64(v))
 				}
+				getFree()
 				if fo := freeOutcomes[s.Name]; fo != nil && pi == 0 {
 					for k := range fo {
 						if _, ok := total.outcomes[k]; !ok {
@@ -651,6 +669,7 @@ func parent(prop, level string, scenarios []Scenario, describe func(r *mc.Run)) 
 		}
 		os.Exit(0)
 	}
+	getFree()
 	r.Finish()
 }
 
